@@ -38,6 +38,10 @@ func streamC19(c *Ctx) {
 			rich := false
 			for j := 0; j < nd; j++ {
 				m := h.Doc(h.newId())
+				if g.pick(3) == 0 {
+					m["dotted.key"] = h.val() // a top-level field whose name contains a dot is not a path
+					m["n.zz"] = int64(j)
+				}
 				if g.pick(2) == 0 {
 					m["when"] = boundaryTimes()[g.pick(10)]
 					m["deep"] = []interface{}{map[string]interface{}{"t": boundaryTimes()[g.pick(10)], "n": int64(g.pick(100))}}
